@@ -100,6 +100,29 @@ def find_self_memo(fi: FuncInfo) -> Optional[Tuple[str, ast.AST, ast.If]]:
                         tgt = sub.targets[0] if isinstance(sub, ast.Assign) else sub.target
                         if attr_chain(tgt) == ch and sub.value is not None:
                             return ch[1], sub.value, st
+    # early return on a hit:  [c = recv.A]; if <recv.A | c> is not None: return <same>; ...; recv.A = v; return v | recv.A
+    aliases = {}
+    for st in fi.body:
+        if isinstance(st, ast.Assign) and len(st.targets) == 1 and isinstance(st.targets[0], ast.Name):
+            ch = attr_chain(st.value)
+            if ch and len(ch) == 2:
+                aliases[st.targets[0].id] = ch
+        if isinstance(st, ast.If) and isinstance(st.test, ast.Compare) and len(st.test.ops) == 1 and isinstance(st.test.ops[0], ast.IsNot) and is_const(st.test.comparators[0], None) \
+                and len(st.body) == 1 and isinstance(st.body[0], ast.Return) and not st.orelse:
+            left = st.test.left
+            ch = attr_chain(left)
+            if isinstance(left, ast.Name) and left.id in aliases:
+                ch = aliases[left.id]
+            if ch and len(ch) == 2 and st.body[0].value is not None and unparse(st.body[0].value) == unparse(left):
+                pos = fi.body.index(st)
+                for later in fi.body[pos + 1:]:
+                    if isinstance(later, (ast.Assign, ast.AnnAssign)):
+                        tgt = later.targets[0] if isinstance(later, ast.Assign) else later.target
+                        if attr_chain(tgt) == ch and later.value is not None:
+                            st._hit_return = True  # type: ignore[attr-defined]
+                            st._store = later  # type: ignore[attr-defined]
+                            st._recv = ".".join(ch)  # type: ignore[attr-defined]
+                            return ch[1], None, st
     return None
 
 
@@ -166,7 +189,7 @@ def rule_memo(ctx: Ctx) -> None:
             val = node.value if isinstance(node, (ast.Assign, ast.AnnAssign)) else None
             if not on_self:
                 ctx.violation("C01-M1", fi, node, f"search table attribute {attr} is stored on {unparse(t.value)} rather than on the pattern object itself: shared between patterns")
-            elif fi is details and node in ast.walk(guard):
+            elif fi is details and (node in ast.walk(guard) or node is getattr(guard, "_store", None)):
                 ctx.ok("C01-M1", fi.where, "compute-on-miss store on self, guarded by `is None`", node, fi)
             elif fi.name in ("__init__", "__new__") and val is not None and is_const(val, None):
                 ctx.ok("C01-M1", fi.where, "initialised to None per object", node, fi)
@@ -174,18 +197,38 @@ def rule_memo(ctx: Ctx) -> None:
                 ctx.violation("C01-M1", fi, node, f"additional writer of the search table {attr}: the table no longer depends on the pattern alone")
         value_fn = details
         rets = [n for n in walk_no_nested(details.node) if isinstance(n, ast.Return)]
-        recv = unparse(guard.test.left)
-        if len(rets) == 1 and rets[0].value is not None and unparse(rets[0].value) == recv and details.body[-1] is rets[0]:
-            ctx.ok("C01-M1", details.where, f"returns the memoised table {recv}", rets[0], details)
+        if getattr(guard, "_hit_return", False):
+            recv = guard._recv
+            store = guard._store
+            last = details.body[-1]
+            stored_txt = unparse(store.value)
+            if isinstance(last, ast.Return) and last.value is not None and unparse(last.value) in (recv, stored_txt) and details.body.index(store) < details.body.index(last) and len(rets) == 2:
+                ctx.ok("C01-M1", details.where, f"returns the memoised table {recv} (hit: early return; miss: compute, store, return)", last, details)
+            else:
+                ctx.violation("C01-M1", details, last, f"the memo function does not end by returning the table it stores ({recv})")
         else:
-            ctx.violation("C01-M1", details, rets[0] if rets else details.node, f"the memo function does not end by returning the table it guards ({recv})")
+            recv = unparse(guard.test.left)
+            if len(rets) == 1 and rets[0].value is not None and unparse(rets[0].value) == recv and details.body[-1] is rets[0]:
+                ctx.ok("C01-M1", details.where, f"returns the memoised table {recv}", rets[0], details)
+            else:
+                ctx.violation("C01-M1", details, rets[0] if rets else details.node, f"the memo function does not end by returning the table it guards ({recv})")
     # ---- M2: purity of the value
     pur = Purity(repo)
+    if value is None and attr is not None:
+        # the table is computed by statements: every name it uses is the pattern, a local or a pure builtin
+        value = ast.Module(body=[st for st in details.body], type_ignores=[])
     if value is not None:
         free = {n.id for n in ast.walk(value) if isinstance(n, ast.Name)}
         bound = {n.id for n in ast.walk(value) if isinstance(n, ast.Name) and isinstance(n.ctx, ast.Store)}
-        allowed = {details.params[0]} | bound | {"len", "zip", "enumerate", "range", "tuple", "list", "min", "max", "sorted"}
-        extra = free - allowed
+        # what must not enter the table: any argument other than the pattern itself (colourings, targets, flags);
+        # non-local mutable state is found by the purity analysis below
+        a = details.node.args
+        other_params = {x.arg for x in a.posonlyargs + a.args + a.kwonlyargs} - {details.params[0]}
+        if a.vararg:
+            other_params.add(a.vararg.arg)
+        if a.kwarg:
+            other_params.add(a.kwarg.arg)
+        extra = (free - bound) & other_params
         if extra:
             ctx.violation("C01-M2", details, value, f"memoised table depends on {sorted(extra)}, not on the pattern alone")
     eff = pur.effects(value_fn)
